@@ -446,7 +446,7 @@ def _send_to(h, d, op):
   dpid = DPIDS[d]
   exp = h.model.registry().get(dpid)
   h.xid_seq += 1
-  payload = sb.barrier_request(0x60000000 | h.xid_seq)
+  payload = sb.echo_request(0x60000000 | h.xid_seq, b"to-dpid")
   before = [len(c.sock.sent) for c in h.cs]
   armed = [c.armed and not c.sock.fatal for c in h.cs]
   r = h.w.nexus.sendToDPID(dpid, payload)
